@@ -1,7 +1,7 @@
 #!/bin/sh
 # usage: confirm_mutant.sh <dir with patch.diff + demo*> ; confirms in scratch worktree /tmp/confirm: demo passes unmodified, patch applies,
 # builds, suite keeps 873 passed, demo fails with the patch. Prints one JSON line.
-D="$1"; W=/tmp/confirm
+D="$1"; W=${W:-/tmp/confirm}
 HEAD=$(git -C /repo rev-parse HEAD)
 git -C $W checkout -q -f --detach $HEAD; git -C $W clean -fdq -e build
 cd $W
@@ -10,12 +10,13 @@ DEMO=$(ls $D | grep -E "^demo.*\.py$" | head -1)
 [ -n "$FULL" ] && rm -rf build librebound*.so
 /venv/bin/python setup.py build_ext --inplace -q >/dev/null 2>&1
 cp $D/$DEMO $W/_demo.py
-/venv/bin/python _demo.py >/tmp/confirm_demo0.log 2>&1; R0=$?
+for x in $D/*.py; do [ "$(basename $x)" = "$DEMO" ] || cp $x $W/; done
+/venv/bin/python _demo.py >$W.demo0.log 2>&1; R0=$?
 git apply $D/patch.diff 2>/dev/null; A=$?
 [ -n "$FULL" ] && rm -rf build librebound*.so
-/venv/bin/python setup.py build_ext --inplace -q >/tmp/confirm_build.log 2>&1; B=$?
+/venv/bin/python setup.py build_ext --inplace -q >$W.build.log 2>&1; B=$?
 SUITE=$(/venv/bin/python -m pytest -q -p no:cacheprovider --timeout=900 --continue-on-collection-errors 2>&1 | tail -1)
-/venv/bin/python _demo.py >/tmp/confirm_demo1.log 2>&1; R1=$?
+/venv/bin/python _demo.py >$W.demo1.log 2>&1; R1=$?
 rm -f _demo.py
 [ -n "$FULL" ] && rm -rf build librebound*.so
 git checkout -q -f --detach $HEAD; git clean -fdq -e build
